@@ -76,6 +76,7 @@ fn strat(t: Tier) -> proptest::strategy::BoxedStrategy<FragCase> {
 
 pub fn def() -> PropertyDef {
     PropertyDef {
+        fuzz_targets: &["c10_frag"],
         id: "C10",
         level: "exploration",
         rule: "op sequences over {write_video(pts,dts,bytes,sync) with sizes 0..2000 and deliberately decreasing/equal DTS, flush_segment, \
